@@ -2,40 +2,44 @@ package main
 
 import (
 	"bytes"
+	"crypto"
 	"fmt"
 	"io"
-	"strings"
+	"time"
 
-	"golang.org/x/crypto/openpgp/armor"
+	"golang.org/x/crypto/openpgp"
+	"golang.org/x/crypto/openpgp/packet"
+	"verif/vf"
 )
 
-func try(h map[string]string) {
+func main() {
+	text := []byte("Signed message\nline 2 \t\r\n\n- dash line\nlast line without newline")
 	var buf bytes.Buffer
-	w, _ := armor.Encode(&buf, "PGP MESSAGE", h)
-	w.Write([]byte("abc"))
+	cfg := &packet.Config{Rand: vf.NewRand("x"), DefaultHash: crypto.SHA1, DefaultCipher: packet.Cipher3DES, DefaultCompressionAlgo: packet.CompressionZIP, Time: func() time.Time { return time.Unix(1704153600, 0) }}
+	w, _ := openpgp.SymmetricallyEncrypt(&buf, []byte("pw"), &openpgp.FileHints{IsBinary: true, FileName: "file.bin"}, cfg)
+	w.Write(text)
 	w.Close()
-	b, err := armor.Decode(bytes.NewReader(buf.Bytes()))
-	if err != nil {
-		fmt.Printf("%q -> decode err %v\n", h, err)
-		return
-	}
-	body, err := io.ReadAll(b.Body)
-	ok := len(b.Header) == len(h)
-	for k, v := range h {
-		if b.Header[k] != v {
-			ok = false
+	orig := buf.Bytes()
+	fmt.Printf("%x\n", orig)
+	for off := 15; off < len(orig); off++ {
+		for _, x := range []byte{orig[off] ^ 1, orig[off] ^ 0x80, orig[off] ^ 0x1b} {
+			m := append([]byte{}, orig...)
+			m[off] = x
+			calls := 0
+			md, err := openpgp.ReadMessage(bytes.NewReader(m), openpgp.EntityList{}, func(k []openpgp.Key, s bool) ([]byte, error) {
+				calls++
+				if calls > 2 {
+					return nil, fmt.Errorf("stop")
+				}
+				return []byte("pw"), nil
+			}, nil)
+			if err != nil {
+				continue
+			}
+			b, err := io.ReadAll(md.UnverifiedBody)
+			if err == nil {
+				fmt.Println("ACCEPTED off", off, "sub", x, "was", orig[off], bytes.Equal(b, text), md.LiteralData.FileName)
+			}
 		}
 	}
-	fmt.Printf("ok=%v body=%q err=%v got=%q\n", ok, body, err, b.Header)
-}
-
-func main() {
-	try(map[string]string{"Comment": ""})
-	try(map[string]string{"Comment": "x"})
-	try(map[string]string{"k:": ":v"})
-	try(map[string]string{"My Key": "a  b: c"})
-	for n := 85; n <= 100; n++ {
-		try(map[string]string{"C": strings.Repeat("x", n) + " " + strings.Repeat("y", 30)})
-	}
-	try(map[string]string{"C": strings.Repeat("x", 250)})
 }
